@@ -307,7 +307,7 @@ fn workload(m: &mut Mon) {
         }
         let nl = r.range(1, 12);
         let dl = r.range(1, 12);
-        let topbits = r.range(1, 64);
+        let topbits = if r.chance(1, 3) { 64 } else { r.range(1, 64) };
         let recipe = r.below(8);
         slices_case(m, &mut r, nl, dl, topbits, recipe);
     }
